@@ -250,6 +250,47 @@ func runC16(ctx *Ctx, idx int) {
 		}
 	}
 
+	// ---- "build nothing": a rejected Init leaves a fresh value empty and an
+	// array in use untouched (the New* constructors hide this by returning nil)
+	if n >= 2 {
+		for _, kind := range []string{"length", "order"} {
+			bad := append([]int32{}, ixs...)
+			bvals := k.slice(vals)
+			if kind == "length" {
+				bvals = k.slice(vals[:n-1])
+			} else {
+				p := r.Intn(n - 1)
+				bad[p], bad[p+1] = bad[p+1], bad[p]
+			}
+			// fresh generic array
+			fresh := &array.Array{}
+			var err error
+			pv, _ := try(func() { err = fresh.Init(bad, bvals) })
+			if pv == nil && err != nil {
+				if fresh.Cnt != 0 || len(fresh.Bitmaps) != 0 || len(fresh.Offsets) != 0 || len(fresh.Elts) != 0 {
+					viol("rejected-init-built-something", map[string]interface{}{"kind": kind, "target": "fresh array.Array", "Cnt": fresh.Cnt, "bitmap_words": len(fresh.Bitmaps), "elts_bytes": len(fresh.Elts)})
+				}
+				ctx.Count("rejected_init_leaves_fresh_value_empty", 1)
+			} else {
+				viol("invalid-init-not-rejected", map[string]interface{}{"kind": kind, "panic": fmt.Sprint(pv), "error": fmt.Sprint(err)})
+			}
+			// array in use: answers must not change
+			used, uerr := array.New(ixs, k.slice(vals))
+			if uerr == nil && used != nil {
+				before, _ := proto.Marshal(used)
+				pv, _ := try(func() { err = used.Init(bad, bvals) })
+				after, _ := proto.Marshal(used)
+				if pv != nil || err == nil {
+					viol("invalid-init-not-rejected", map[string]interface{}{"kind": kind, "target": "array in use", "panic": fmt.Sprint(pv), "error": fmt.Sprint(err)})
+				} else if !bytes.Equal(before, after) {
+					viol("rejected-init-changed-array-in-use", map[string]interface{}{"kind": kind})
+				} else {
+					ctx.Count("rejected_init_leaves_used_array_untouched", 1)
+				}
+			}
+		}
+	}
+
 	// ---- valid build
 	var get func(int32) (uint64, bool)
 	var base *array.Base
@@ -491,7 +532,7 @@ func runC16(ctx *Ctx, idx int) {
 func init() {
 	register(&CheckDef{
 		ID: "C16", Level: "exploration",
-		Rule: "case = (array type U16/U32/U64/I16/I32/I64, ascending index set in [0,2^20) - empty, single, dense, holes, sparse with empty 64-bit words, clusters, word boundaries, top of range - and full-range elements); oracle: a Go map compared at every index of the bitmap span (spans <= 2^16) or all present indexes, their neighbours and 10^4 random probes, through the typed accessor, Base.GetBytes, array.New and NewEmpty+Init generic accessors, and after proto round trips into the typed and the generic type (and generic -> typed); re-marshal reproduces the bytes; struct elements through the generic array; an equal and a descending neighbour at every position of lists of <=16 indexes (4 seeded positions of longer ones) and length mismatches of +1, -1 and a seeded amount are rejected with ErrIndexNotAscending / ErrIndexLen (by identity) and a nil array; non-trivial = at least 2 elements",
+		Rule: "case = (array type U16/U32/U64/I16/I32/I64, ascending index set in [0,2^20) - empty, single, dense, holes, sparse with empty 64-bit words, clusters, word boundaries, top of range - and full-range elements); oracle: a Go map compared at every index of the bitmap span (spans <= 2^16) or all present indexes, their neighbours and 10^4 random probes, through the typed accessor, Base.GetBytes, array.New and NewEmpty+Init generic accessors, and after proto round trips into the typed and the generic type (and generic -> typed); re-marshal reproduces the bytes; struct elements through the generic array; an equal and a descending neighbour at every position of lists of <=16 indexes (4 seeded positions of longer ones) and length mismatches of +1, -1 and a seeded amount are rejected with ErrIndexNotAscending / ErrIndexLen (by identity) and a nil array; a rejected Init called directly leaves a fresh value empty (Cnt, bitmap, offsets, elements) and an array in use byte-identical; non-trivial = at least 2 elements",
 		NumCases: func(tier string) int {
 			if tier == "thorough" {
 				return 40000
@@ -501,7 +542,7 @@ func init() {
 		Run:           runC16,
 		MinNontrivial: func(tier string) int { return 500 },
 		Gates: shapeGates("type:U16", "type:U32", "type:U64", "type:I16", "type:I32", "type:I64", "arrays:all_indexes_probed", "arrays:with_empty_words", "arrays:empty", "arrays:single",
-			"arrays:struct_elements", "rejected:ErrIndexNotAscending:equal", "rejected:ErrIndexNotAscending:descending", "rejected:ErrIndexLen", "invalid:every_position_lists", "probes:typed-after-roundtrip", "probes:generic-after-roundtrip"),
+			"arrays:struct_elements", "rejected:ErrIndexNotAscending:equal", "rejected:ErrIndexNotAscending:descending", "rejected:ErrIndexLen", "invalid:every_position_lists", "rejected_init_leaves_fresh_value_empty", "rejected_init_leaves_used_array_untouched", "probes:typed-after-roundtrip", "probes:generic-after-roundtrip"),
 		Assumptions: []string{"probes stay inside the bitmap span, as the statement says"},
 	})
 }
